@@ -64,6 +64,10 @@ def pattern_event(pp, tid, c, opts):
           "lightestFirst": all(k in LIGHT + ["e", "p", "n", "13C", "2H", "D", "15N", "18O"] for k in c), "unlabelled": True,
           "resolutionSlack": int(10 ** (6 - r)) * max(1, len(c)) if r >= 3 else 0, "out": o,
           "pattern": pattern(p) if o == "ret" else []}
+    # "the average mass of the composition" as the library itself reports it (chem_mass, average mode): a fact of its own
+    oa, av = call(lambda: pp.chem_mass(dict(c), monoisotopic=False))
+    ev["hasLibAvg"] = bool(oa == "ret")
+    ev["libAvg"] = fix(av) if oa == "ret" else [0, 0]
     return ev
 
 
